@@ -200,13 +200,138 @@ def sandbox():
     return Path(os.path.realpath(tempfile.mkdtemp(prefix="vsb_c11_", dir=os.environ.get("VERIF_TMP", "/tmp"))))
 
 
+# ---------------------------------------------------------------------------- the retry loop (full runs)
+LOOP_DEFS = """
+Definition m_loop (x : nat * nat) : nat * bool := release_rounds (fst x) (fun i => Nat.leb (snd x) i).
+Definition eq_loop (a b : nat * bool) : bool := Nat.eqb (fst a) (fst b) && Bool.eqb (snd a) (snd b).
+"""
+
+
+def break_release(data: bytes, what: str) -> bytes:
+    """the same Release with one listed size (or one hash) changed"""
+    lines = data.decode().split("\n")
+    for i, l in enumerate(lines):
+        parts = l.split()
+        if l.startswith(" ") and len(parts) == 3 and parts[1].isdigit() and int(parts[1]) > 0:
+            if what == "size":
+                lines[i] = f" {parts[0]} {int(parts[1]) + 1} {parts[2]}"
+            else:
+                lines[i] = f" {'f' * len(parts[0]) if parts[0][0] != 'f' else 'e' * len(parts[0])} {parts[1]} {parts[2]}"
+            break
+    return "\n".join(lines).encode()
+
+
+def loop_case(rep, rng, sb, tag):
+    """InRelease and Release of one codename disagree for the first k fetch rounds (the upstream replaces
+    the Release between attempts), release_files_retries = R.  Expected: min(k+1, max(1,R)) rounds; the
+    repository is published iff k < max(1,R); on failure nothing is published or deleted."""
+    from . import pipeline as P
+    from . import runs as R_
+    from . import sim
+    found = False
+    scn = P.gen_scenario(rng, nrepos=1)
+    r = scn.repos[0]
+    for c in r["version"]["codenames"].values():
+        c["flavours"] = ["InRelease", "Release", "Release.gpg"]
+    retries = rng.choice([1, 1, 2, 3, 4])
+    scn.retries = retries
+    k = rng.choice([0, 1, 1, 2, 3, 4, 5, 99])
+    base = sb / tag
+    url = r["url"]
+    prior = rng.random() < 0.6
+    before = None
+    if prior:
+        f1 = R_.files_of(scn)
+        r0 = R_.run_observed(scn, base, files_by_url=f1)
+        if r0.code != 0:
+            return None, False
+        scn = P.Scenario([dict(r, version=P.gen_version(rng, serial=2, prev=r["version"]))], nthreads=scn.nthreads,
+                         retries=retries)
+        for c in scn.repos[0]["version"]["codenames"].values():
+            c["flavours"] = ["InRelease", "Release", "Release.gpg"]
+        before = (R_.dists_view(base, url), set(P.tree_listing(base / "mirror" / P.repo_dir(url), False)))
+    files = R_.files_of(scn)
+    cn = rng.choice(sorted(scn.repos[0]["version"]["codenames"]))
+    victim = rng.choice(["Release", "InRelease"])
+    pth = f"dists/{cn}/{victim}"
+    data, mtime = files[url][pth]
+    what = rng.choice(["size", "hash"])
+    same_date = rng.random() < 0.5
+    bad_body = break_release(data, what)
+    if bad_body == data:
+        return None, False
+    if same_date:
+        # same Last-Modified: then the length differs (a file's date or size changes whenever its content does)
+        bad_body = bad_body.replace(b"Origin: sim\n", b"Origin: sim-stale\n", 1)
+    bad = sim.Resp("ok", announced=len(bad_body), date=mtime if same_date else mtime - 7, body=bad_body, chunks=64)
+    faults = {url: {pth: {"first": [bad] * min(k, 40), "rest": "good" if k < 99 else bad}}}
+    res = P.run_tool(scn, base, faults=faults, upstream_files=files)
+    up = res.ups[url.rstrip("/")]
+    other = f"dists/{cn}/{'InRelease' if victim == 'Release' else 'Release'}"
+    rounds = up.counts.get(other, 0)
+    ok = res.code == 0
+    eff = max(1, retries)
+    want_rounds, want_ok = min(k + 1, eff), k < eff
+    jc = {"retries": retries, "k": k, "victim": pth, "what": what, "same_date": same_date, "prior": prior,
+          "scenario": {"repos": scn.repos, "nthreads": scn.nthreads}}
+    rep.case(("loop", retries, min(k, 6), ok, prior, same_date), sample={"retries": retries, "bad_rounds": k, "rounds": rounds, "exit": res.code})
+    rep.count(f"loop.ok.{ok}")
+    if (rounds, ok) != (want_rounds, want_ok):
+        found = True
+        rep.violation(f"release files disagree ({what}) in the first {k} fetch rounds, release_files_retries={retries}: "
+                      f"{rounds} rounds and exit {res.code}; the statement gives {want_rounds} rounds and "
+                      f"{'success' if want_ok else 'failure'}",
+                      {"kind": "oracle", "tie": "loop", "case": jc}, tags={"oracle": "rounds"})
+    if not ok and before is not None:
+        dv = R_.dists_view(base, url)
+        now = set(P.tree_listing(base / "mirror" / P.repo_dir(url), False))
+        if dv != before[0] or before[1] - now:
+            found = True
+            rep.violation(f"release files never agreed (k={k}, retries={retries}) but the published tree changed",
+                          {"kind": "oracle", "tie": "loop", "case": jc}, tags={"oracle": "nothing_published"})
+    if not ok and before is None and (base / "mirror" / P.repo_dir(url) / "dists").exists():
+        found = True
+        rep.violation(f"release files never agreed (k={k}, retries={retries}) but a dists tree was published",
+                      {"kind": "oracle", "tie": "loop", "case": jc}, tags={"oracle": "nothing_published"})
+    if ok:
+        live = base / "mirror" / P.repo_dir(url) / pth
+        if not live.exists() or live.read_bytes() != data:
+            found = True
+            rep.violation(f"run succeeded after {k} inconsistent rounds but the published {pth} is not the consistent one",
+                          {"kind": "oracle", "tie": "loop", "case": jc}, tags={"oracle": "published_consistent"})
+    shutil.rmtree(base, ignore_errors=True)
+    return (jc, ctuple(str(retries) + "%nat", str(min(k, 50)) + "%nat"), ctuple(str(rounds) + "%nat", cbool(ok))), found
+
+
+def run_loop(rep, n):
+    from . import pipeline as P
+    rng = random.Random(rep.seed + 1111)
+    sb = P.sandbox("vsb_c11_")
+    rows, found = [], False
+    try:
+        for i in range(n):
+            row, f = loop_case(rep, rng, sb, f"l{i}")
+            found |= f
+            if row:
+                rows.append(row)
+    finally:
+        shutil.rmtree(sb, ignore_errors=True)
+    header = HEADER + LOOP_DEFS
+    mism, errors = C.run_mismatch_shards(rep.prop, "loop", header, "m_loop", "eq_loop", [(a, b) for _, a, b in rows], shard=300)
+    C.tie_verdict(rep, "loop", mism, errors, [c for c, _, _ in rows], found, header=header, fn="m_loop",
+                  coq_inputs=[a for _, a, _ in rows])
+    return found
+
+
 def run(rep: C.Report):
     rep.rule = ("pairs of InRelease/Release per codename (equal, permuted, one size / one hash differing, "
                 "listed sets differing, extra algorithm section, one or both absent, clear-signed, noise "
                 "fields, non-positive and unparsable sizes, release files listed inside); distinct by "
                 "(verdict, mutation kinds, presence pattern)")
     rep.assumptions += ["python-debian's Release parser is exercised by the tie, not modelled",
-                        "the retry loop is tied to the code by the pipeline harness (C02/C12 runs)"]
+                        "retry loop: full runs in which one release flavour of one codename disagrees for the "
+                        "first k rounds (k in 0..5 or for ever), release_files_retries 1..4, with and without a "
+                        "previously published tree, replaced files with the same or another Last-Modified"]
     C.proof_step(rep, thorough=(rep.tier == "thorough"))
     rng = random.Random(rep.seed + 11)
     n = 800 if rep.tier == "quick" else 20000
@@ -226,6 +351,7 @@ def run(rep: C.Report):
                                          [(a, b) for _, a, b in rows], shard=300)
     C.tie_verdict(rep, "validate", mism, errors, [c for c, _, _ in rows], found, header=header,
                   fn="m_validate", coq_inputs=[a for _, a, _ in rows])
+    found |= run_loop(rep, 40 if rep.tier == "quick" else 1500)
     C.proof_verdict(rep, found)
 
 
